@@ -1110,12 +1110,21 @@ def k_sgrange(L, c, R):
     vals = [str(q) for q in range(max(3, c['start'] | 1), c['start'] + c['count'], 2) if ref_prime(q)]
     k_sgprime(L, dict(c, vals=vals), R)
 
+def k_ecpvalidators(L, c, R):
+    """ecpIsValid / ecpSeemsValidGroup / ecpIsSafeGroup on small prime-field curves with completely known groups (the cell is C06's:
+    it owns the small-curve machinery); here the verdicts are judged as validator decisions"""
+    import C06
+    r = C06.validators_cell({'kind': 'validators', 'cfg': c['cfg'], 'spec': C06.tspec(c['spec']), 'nU': 40, 'bits': 16})
+    R.n += r['calls']; R.outc('group validator calls on small curves', r['calls'])
+    for key, rec, msg in r['viol']:
+        R.bad(key.replace('ecp:validators:', ''), dict(c), msg)
+
 # ================================================================== dispatcher
 KINDS = {'date2_all': k_date2_all, 'date2': k_date2, 'date_range': k_date_range, 'isprimew': k_isprimew, 'nextprimew': k_nextprimew,
          'nextprime': k_nextprime, 'sieved': k_sieved, 'smooth': k_sieved, 'primeval': k_primeval, 'isprime_range': k_isprime_range, 'carm': k_carm,
          'irred': k_irred, 'irred_big': k_irred_big, 'bels_std': k_bels_std, 'std': k_std, 'params': k_params, 'bignkey': k_bignkey,
          'dstupoint': k_dstupoint, 'pfokkey': k_pfokkey, 'pqfam': k_pqfam, 'seed': k_seed, 'gen': k_gen, 'batch': k_batch,
-         'bigngen': k_bigngen, 'sgprime': k_sgprime, 'sgrange': k_sgrange}
+         'bigngen': k_bigngen, 'sgprime': k_sgprime, 'sgrange': k_sgrange, 'ecpvalidators': k_ecpvalidators}
 
 def run_case(c):
     L = common.lib(c['cfg'])
@@ -1489,6 +1498,8 @@ def run(tier):
     J = date_jobs(tier, 'rel') + param_jobs(tier, 'rel')
     for cfg in ('rel', 'w32'):
         J += prime_jobs(tier, cfg) + poly_jobs(tier, cfg)
+        import C06
+        J += [dict(cfg=cfg, part='curve / group validators on small curves', kind='ecpvalidators', spec=['p', p, a, b]) for p, a, b in C06.validator_curves(tier)]
     only = [x for x in os.environ.get('C12_ONLY', '').split(',') if x]       # development aid: run a subset of the parts
     if only:
         J = [j for j in J if 'expand' in j or any(x in j['part'] for x in only)]
